@@ -7,7 +7,9 @@ SPDX-License-Identifier: Apache-2.0
 package doccomposer
 
 import (
+	"bytes"
 	"encoding/json"
+	"errors"
 	"fmt"
 	"strconv"
 	"strings"
@@ -120,13 +122,103 @@ func applyJSON(doc document.Document, entry interface{}) (result document.Docume
 			return nil, err
 		}
 
-		docBytes, err = jsonpatch.Patch{op}.Apply(docBytes)
+		steps, err := expandCopyMove(docBytes, op)
 		if err != nil {
 			return nil, err
+		}
+
+		for _, step := range steps {
+			docBytes, err = jsonpatch.Patch{step}.Apply(docBytes)
+			if err != nil {
+				return nil, err
+			}
 		}
 	}
 
 	return document.FromBytes(docBytes)
+}
+
+// expandCopyMove rewrites a copy as "add the value found at from" and a move as "remove from, then add that
+// value" (RFC 6902, 4.4 and 4.5). The JSON patch library SETS the destination instead: copied or moved to an
+// array index the value overwrites the element that is there (an element is lost), beyond the end the array
+// is padded with null, and a copy from a location that does not exist writes null.
+func expandCopyMove(docBytes []byte, op map[string]*json.RawMessage) ([]map[string]*json.RawMessage, error) {
+	var kind, from string
+
+	kindMsg, ok := op["op"]
+	if !ok || kindMsg == nil || json.Unmarshal(*kindMsg, &kind) != nil || (kind != "copy" && kind != "move") {
+		return []map[string]*json.RawMessage{op}, nil
+	}
+
+	fromMsg, ok := op["from"]
+	if !ok || fromMsg == nil || json.Unmarshal(*fromMsg, &from) != nil {
+		return []map[string]*json.RawMessage{op}, nil
+	}
+
+	value, err := valueAt(docBytes, from)
+	if err != nil {
+		return nil, fmt.Errorf("json patch: cannot %s from '%s': %w", kind, from, err)
+	}
+
+	raw := func(v interface{}) *json.RawMessage {
+		b, _ := json.Marshal(v) //nolint:errcheck // strings and values that were just decoded
+		m := json.RawMessage(b)
+
+		return &m
+	}
+
+	add := map[string]*json.RawMessage{"op": raw("add"), "path": op["path"], "value": raw(value)}
+	if kind == "copy" {
+		return []map[string]*json.RawMessage{add}, nil
+	}
+
+	return []map[string]*json.RawMessage{{"op": raw("remove"), "path": op["from"]}, add}, nil
+}
+
+// valueAt returns the value that the JSON pointer denotes in the document (numbers as they are written).
+func valueAt(docBytes []byte, pointer string) (interface{}, error) {
+	decoder := json.NewDecoder(bytes.NewReader(docBytes))
+	decoder.UseNumber()
+
+	var node interface{}
+	if err := decoder.Decode(&node); err != nil {
+		return nil, err
+	}
+
+	if pointer == "" {
+		return node, nil
+	}
+
+	for _, token := range strings.Split(pointer[1:], "/") {
+		switch container := node.(type) {
+		case map[string]interface{}:
+			member, ok := container[strings.ReplaceAll(strings.ReplaceAll(token, "~1", "/"), "~0", "~")]
+			if !ok {
+				return nil, errors.New("location does not exist")
+			}
+
+			node = member
+		case []interface{}:
+			i, err := strconv.Atoi(token)
+			if err != nil {
+				return nil, errors.New("location does not exist")
+			}
+
+			if i < 0 {
+				i += len(container)
+			}
+
+			if i < 0 || i >= len(container) {
+				return nil, errors.New("location does not exist")
+			}
+
+			node = container[i]
+		default:
+			return nil, errors.New("location does not exist")
+		}
+	}
+
+	return node, nil
 }
 
 // validateDestinationIndex refuses a copy or move whose destination is an array index beyond the end of the
